@@ -367,7 +367,7 @@ def mutate(tokens, names, rng):
     return t
 
 
-SEPS = [" ", "", "  ", "\n", "\t ", " \n  ", "\r\n"]
+SEPS = [" ", "", "  ", "\n", "\t ", " \n  ", "\r\n", " ", "", "\u00a0", "\u2003 ", " \u3000", "\u2028", " \n"]
 
 
 def render_input(g, tokens, rng=None, seps=None, foreign_at=None, kinds=None,
